@@ -221,6 +221,14 @@ def run(ctx: Ctx) -> RuleResult:
     resets = [a for a in lms if isinstance(a.value, ast.Constant) and a.value.value == 0]
     raises = [a for a in lms if a not in resets]
     ok = len(resets) == 1 and len(raises) == 1 and norm(raises[0].value) == 'len(%s)' % toks_var
+    if len(resets) == 1 and len(raises) == 1 and not ok and isinstance(raises[0].value, ast.Name):
+        # the same count kept by the loop itself: `for n, token in enumerate(<stream>, 1)` where every iteration that reaches the
+        # assignment has appended exactly one token (the append dominates it, checked below)
+        for l_ in ancestors(raises[0]):
+            if isinstance(l_, ast.For) and isinstance(l_.iter, ast.Call) and norm(l_.iter.func) == 'enumerate' and len(l_.iter.args) == 2 \
+                    and norm(l_.iter.args[1]) == '1' and isinstance(l_.target, ast.Tuple) and norm(l_.target.elts[0]) == raises[0].value.id:
+                only_jumps_before_append = True
+                ok = True
     if ok:
         r = raises[0]
         # dominated by a feed of $END on a shallow state copy inside a try whose failure `continue`s
